@@ -185,7 +185,7 @@ class World:
 
 
 def caller_unit(M, n_callers, depth, limits, with_unsolicited):
-    events = ["start-next", "answer", "event", "read-all", "read-partial", "peer-close", "loop-delivers-loss"]
+    events = ["start-next", "answer", "event", "read-all", "read-partial", "peer-close", "peer-eof", "loop-delivers-loss"]
     events += ["cancel-%d" % k for k in range(n_callers)] + ["timeout-%d" % k for k in range(n_callers)]
     if with_unsolicited:
         events.append("unsolicited-response")
@@ -253,6 +253,15 @@ def caller_unit(M, n_callers, depth, limits, with_unsolicited):
                 ex.assume(not W.lost)
                 W.wire = b""
                 W.deliver_loss(None)
+                ex.tag("peer-close")
+            elif ev == "peer-eof":
+                # the accessory half-closes: eof_received(); a falsy return value makes asyncio close the transport
+                ex.assume(not W.lost and not W.tr.closed)
+                W.wire = b""
+                keep_open = W.proto.eof_received()
+                ex.require(not keep_open, "after the accessory's EOF the transport is not kept open")
+                if not keep_open:
+                    W.tr.closed = True
                 ex.tag("peer-close")
             elif ev == "loop-delivers-loss":
                 ex.assume(W.tr.closed and not W.lost)
